@@ -14,11 +14,11 @@ impl Prop for C06 {
     fn meta(&self) -> Meta {
         Meta {
             level: "exploration",
-            rule: "same program space as C01 with the filler blob length swept through every residue modulo 1020 and modulo 4 (run index), blob/image/mask lengths drawn around 0, page and 8 KiB copy-buffer boundaries; sources are SimPipe readers with seeded short reads, read-back goes through E57Reader::blob into SimPipe sinks with seeded short writes; every eighth run first rewrites all blob section headers to the convention older versions of this crate wrote (section length = data length, accepted by the reader on purpose) and re-seals the pages. Oracle: returned count = descriptor length = bytes written, bytes identical, each image's blob and mask descriptors yield that image's own (unique) payload. Distinct = same fingerprint as C01; non-trivial = more than one page and at least one payload".into(),
-            assumptions: vec!["device and pipes are fault-free apart from short transfers".into()],
+            rule: "same program space as C01 with the filler blob length swept through every residue modulo 1020 and modulo 4 (run index), blob/image/mask lengths drawn around 0, page and 8 KiB copy-buffer boundaries; sources are SimPipe readers with seeded short reads, read-back goes through E57Reader::blob into SimPipe sinks with seeded short writes; every eighth run first rewrites all blob section headers to the convention older versions of this crate wrote (section length = data length, accepted by the reader on purpose) and re-seals the pages; every fourth run contains one add_blob call whose source reports an error after k bytes (k over all residues modulo 4, including 0 and the full length): that call must return an error, the program goes on with the same writer, and everything added afterwards is judged as usual. Oracle: returned count = descriptor length = bytes written, bytes identical, each image's blob and mask descriptors yield that image's own (unique) payload. Distinct = same fingerprint as C01; non-trivial = more than one page and at least one payload".into(),
+            assumptions: vec!["the device is fault-free apart from short transfers; the only fault is the error of one blob source".into()],
             real: vec!["e57 crate: E57Writer::add_blob, ImageWriter, Blob::write/read, paged writer/reader, E57Reader".into(), "roxmltree".into(), "std::io::copy".into()],
             stub: vec!["SimDisk device".into(), "SimPipe sources and sinks".into(), "scene model".into()],
-            required_probes: vec!["blob_header_straddles_page".into(), "short_device_transfers".into(), "legacy_blob_section_length_convention".into()],
+            required_probes: vec!["blob_header_straddles_page".into(), "short_device_transfers".into(), "legacy_blob_section_length_convention".into(), "blob_added_after_failed_add_blob".into()],
         }
     }
     fn plan(&self, tier: Tier) -> Plan {
@@ -32,6 +32,25 @@ impl Prop for C06 {
         // every eighth run reads the blobs back from a file in the section-length convention of
         // older versions of this crate
         c.legacy_blob_headers = rc.index % 8 == 5;
+        // every fourth run: one add_blob call whose source reports an error after some bytes (all
+        // residues modulo 4); the call must fail and everything added afterwards must read back
+        if rc.index % 4 == 1 {
+            let mut g = crate::rng::Rng::stream(rc.run_seed, "src-fault");
+            let blobs: Vec<usize> = c.prog.calls.iter().enumerate().filter(|(_, x)| matches!(x, crate::program::Call::Blob { .. })).map(|(i, _)| i).collect();
+            if !blobs.is_empty() {
+                let at = *g.pick(&blobs);
+                if let crate::program::Call::Blob { data, fail_after, .. } = &mut c.prog.calls[at] {
+                    let k = if data.len == 0 || g.chance(1, 4) { data.len } else { g.usize_below(data.len.min(5000) + 1).min(data.len) };
+                    *fail_after = Some(k);
+                }
+            } else {
+                use crate::model::Bytes;
+                let len = g.usize_below(3000);
+                let k = g.usize_below(len + 1);
+                let at = g.usize_below(c.prog.calls.len() + 1);
+                c.prog.calls.insert(at, crate::program::Call::Blob { data: Bytes::draw(&mut g, len), pipe: crate::simdisk::Chunk::Full, fail_after: Some(k) });
+            }
+        }
         c
     }
     fn execute(&self, case: &WriterCase, st: &mut RunStats) -> Outcome<WriterCase> {
